@@ -160,6 +160,44 @@ pub fn run(thorough: bool, seed: u64) -> i32 {
 							}
 						}
 					}
+					// field types the generator asked for (primitive-like fields): kind + logical type
+					if let Some(exp_fields) = meta["expected_fields"].as_object() {
+						for id in rs.reachable() {
+							if let Kind::Record { name, fields } = &rs.nodes[id].kind {
+								if let Some(ef) = exp_fields.get(name).and_then(|v| v.as_object()) {
+									for (fname, fid) in fields {
+										if let Some(want) = ef.get(fname).and_then(|v| v.as_str()) {
+											let n = &rs.nodes[*fid];
+											let base = match &n.kind {
+												Kind::Boolean => "boolean".to_owned(),
+												Kind::Int => "int".to_owned(),
+												Kind::Long => "long".to_owned(),
+												Kind::Float => "float".to_owned(),
+												Kind::Double => "double".to_owned(),
+												Kind::String => "string".to_owned(),
+												Kind::Bytes => "bytes".to_owned(),
+												Kind::Fixed { size, .. } => format!("fixed({size})"),
+												other => format!("{other:?}").chars().take(20).collect(),
+											};
+											let got = match &n.logical {
+												None => base,
+												Some(Logical::Decimal { precision, scale }) => format!("{base}/decimal({scale},{precision})"),
+												Some(l) => format!("{base}/{}", l.name()),
+											};
+											bump(&mut counters, "field_types_compared", 1);
+											if got != want {
+												violations.push(Violation {
+													signature: format!("derived-field-type-unexpected want={want} got={got}"),
+													case_seed: fseed,
+													detail: detail(json!({"record": name, "field": fname, "expected": want, "got": got, "schema_json": sj})),
+												});
+											}
+										}
+									}
+								}
+							}
+						}
+					}
 					if let Some(root) = rs.fullname(0) {
 						root_names.insert(ty.clone(), root.to_owned());
 						if let Some(Some(exp)) = expected.get(&ty) {
@@ -242,7 +280,7 @@ pub fn run(thorough: bool, seed: u64) -> i32 {
 			"only shapes the statement lists are generated; a compile error outside the derive macro's own output is a harness error (exit 2), not a violation",
 			"rustc, serde_derive, serde_bytes and rust_decimal are trusted",
 		],
-		required: &["families_compiled", "types_checked", "schemas_valid_per_reference", "values_roundtripped_ok", "generic_instantiation_groups_checked", "expected_fullnames_confirmed"],
+		required: &["families_compiled", "types_checked", "schemas_valid_per_reference", "values_roundtripped_ok", "generic_instantiation_groups_checked", "expected_fullnames_confirmed", "field_types_compared"],
 		thorough,
 		seed,
 		evaluations,
